@@ -24,6 +24,8 @@ struct ConvSpec {
     auth_reject: bool,
     uniform_read: usize,
     write_cap: usize,
+    /// positions in the client byte stream that no read may cross
+    cuts: Vec<usize>,
     /// the client waits for every reply before it sends the next command
     lockstep: bool,
     /// multi-megabyte conversation: end-of-stream only around packet headers and message ends,
@@ -74,7 +76,7 @@ fn behave_for(spec: &ConvSpec) -> Box<dyn FnMut(usize, &Cb) -> Behavior> {
 }
 
 fn run_spec(spec: &ConvSpec, stream: &Arc<Vec<u8>>, fault: Option<Fault>) -> Outcome {
-    let mut sim = sim_for(stream, vec![]);
+    let mut sim = sim_for(stream, spec.cuts.iter().copied().filter(|c| *c < stream.len()).collect());
     sim.uniform_read = spec.uniform_read;
     sim.write_cap = spec.write_cap;
     sim.fault = fault;
@@ -389,6 +391,7 @@ fn specs(quick: bool) -> Vec<ConvSpec> {
                     auth_reject: false,
                     uniform_read: ur,
                     write_cap: wc,
+                    cuts: vec![],
                     lockstep: ls,
                     sparse: false,
                 });
@@ -418,6 +421,7 @@ fn specs(quick: bool) -> Vec<ConvSpec> {
             auth_reject: false,
             uniform_read: ur,
             write_cap: wc,
+            cuts: vec![],
             lockstep: ls,
             sparse: false,
         });
@@ -436,6 +440,7 @@ fn specs(quick: bool) -> Vec<ConvSpec> {
             auth_reject: false,
             uniform_read: ur,
             write_cap: wc,
+            cuts: vec![],
             lockstep: ls,
             sparse: false,
         });
@@ -449,6 +454,7 @@ fn specs(quick: bool) -> Vec<ConvSpec> {
                 auth_reject: false,
                 uniform_read: ur,
                 write_cap: wc,
+                cuts: vec![],
                 lockstep: ls,
                 sparse: false,
             });
@@ -462,6 +468,7 @@ fn specs(quick: bool) -> Vec<ConvSpec> {
             auth_reject: true,
             uniform_read: ur,
             write_cap: wc,
+            cuts: vec![],
             lockstep: ls,
             sparse: false,
         });
@@ -481,6 +488,7 @@ fn specs(quick: bool) -> Vec<ConvSpec> {
                 auth_reject: false,
                 uniform_read: ur,
                 write_cap: wc,
+                cuts: vec![],
                 lockstep: ls,
                 sparse: false,
             });
@@ -498,6 +506,7 @@ fn specs(quick: bool) -> Vec<ConvSpec> {
             auth_reject: false,
             uniform_read: usize::MAX,
             write_cap: usize::MAX,
+            cuts: vec![],
             lockstep: false,
             sparse: true,
         });
@@ -507,12 +516,42 @@ fn specs(quick: bool) -> Vec<ConvSpec> {
 
 pub fn build(quick: bool) -> Check {
     let sp = specs(quick);
+    // the same fault enumeration again with one read boundary inside the client stream: the
+    // operation log (and with it every fault point) changes with the chunking. Quick: the plain
+    // pipelined conversations under a boundary next to every packet header; thorough: under a
+    // boundary at every position.
+    let mut sp = sp;
+    let base: Vec<ConvSpec> = sp.iter().filter(|s| s.uniform_read == usize::MAX && s.write_cap == usize::MAX && !s.lockstep && !s.sparse && s.cmds.len() <= 8).cloned().collect();
+    for b in base {
+        let st = Conv::new(b.cmds.clone()).stream();
+        let positions: Vec<usize> = if quick {
+            let mut v: Vec<usize> = Vec::new();
+            for h in &st.headers {
+                for d in [1usize, 3, 4, 5] {
+                    if h + d < st.bytes.len() {
+                        v.push(h + d);
+                    }
+                }
+            }
+            v.sort();
+            v.dedup();
+            v
+        } else {
+            (1..st.bytes.len()).collect()
+        };
+        for c in positions {
+            let mut s2 = b.clone();
+            s2.cuts = vec![c];
+            s2.label = format!("{} [read boundary at {}]", b.label, c);
+            sp.push(s2);
+        }
+    }
     let n = sp.len();
     let families: Vec<Box<dyn Family>> = sp.into_iter().map(|s| Box::new(FaultFamily::new(s)) as Box<dyn Family>).collect();
     Check {
         id: "C19",
         level: "fault_enumeration",
-        rule: format!("{} conversations (writer programs with explicit finish and with implicit drops, text and binary, chained results, long data, close, quit, library replies, auth rejection, a shim error in each callback; each writer program followed by a library-answered command, by another shim command + QUIT, and by QUIT alone; pipelined and with a lock-step client; under 1-byte reads and short writes; requests of 2^24-1 bytes and more with end-of-stream within 6 bytes of every packet header and message end). For each, from the operation log of its fault-free run: end of stream after every byte count 0..M, an error of each of 4 kinds once and persistently at every operation index, a zero-length write at every write. Oracle: Ok iff fault-free and the client quit or closed at a message boundary after the handshake; every fault => Err, never Ok, never a panic; no callback starts after the failed operation; a shim error is returned as the identical value. Non-trivial = a fault strictly inside the conversation (not a clean close).", n),
+        rule: format!("{} conversations (writer programs with explicit finish and with implicit drops, text and binary, chained results, long data, close, quit, library replies, auth rejection, a shim error in each callback; each writer program followed by a library-answered command, by another shim command + QUIT, and by QUIT alone; pipelined and with a lock-step client; under 1-byte reads and short writes; requests of 2^24-1 bytes and more with end-of-stream within 6 bytes of every packet header and message end; the plain conversations again under one read boundary next to every packet header (thorough: at every position), each with its own fault-free operation log). For each, from the operation log of its fault-free run: end of stream after every byte count 0..M, an error of each of 4 kinds once and persistently at every operation index, a zero-length write at every write. Oracle: Ok iff fault-free and the client quit or closed at a message boundary after the handshake; every fault => Err, never Ok, never a panic; no callback starts after the failed operation; a shim error is returned as the identical value. Non-trivial = a fault strictly inside the conversation (not a clean close).", n),
         assumptions: vec![
             "ErrorKind::Interrupted is not injected: std's write_all retries it by contract, so it is not a transport failure report".into(),
             "fault points are derived from the fault-free run of the tree under test, not from constants".into(),
